@@ -160,4 +160,99 @@ def gc (s : RState) (cutoff : Int) : RState := gcFam (gcFam s .v4 cutoff) .v6 cu
 /-- `populateProm`: (infohashes, seeders, leechers), GET of the six counters -/
 def totals (s : RState) : Int × Int × Int := (s.c.ih4 + s.c.ih6, s.c.s4 + s.c.s6, s.c.l4 + s.c.l6)
 
+
+/-! ## round trips (C04 for Redis: `Props/RedisConc.lean`)
+
+A store operation is a sequence of round trips; those of concurrently running operations interleave.
+The first round trip of an announce-path operation is its whole membership change as one atomic
+command group; the remaining ones are `INCR`/`DECR` on the counters, decided by the first one's replies. -/
+
+/-- the command group shared by the put-type operations: HSET `pk` in `kA`, register `kA` in the
+index of `f`, HDEL `pk` from `kB`; with the three replies -/
+def core (s : RState) (f : Fam) (kA kB pk : Bytes) (now : Int) : RState × Nat × Nat × Nat :=
+  let h0 := hset s kA pk now
+  let h1 := idxSet h0.1 f kA now
+  let h2 := hdel h1.1 kB pk
+  (h2.1, h0.2, h1.2, h2.2)
+
+def core2 (s : RState) (f : Fam) (kA kB pk : Bytes) (now : Int) : RState × Nat × Nat × Nat :=
+  let h0 := hdel s kB pk
+  let h1 := hset h0.1 kA pk now
+  let h2 := idxSet h1.1 f kA now
+  (h2.1, h1.2, h2.2, h0.2)
+
 end RedisStore
+
+namespace RedisConc
+open RedisStore
+open MemStore (peerKey)
+
+/-- the announce-path store operations (everything but the expiry pass) -/
+inductive AOp where
+  | putSeeder (ih : Bytes) (p : Peer) (now : Int)
+  | putLeecher (ih : Bytes) (p : Peer) (now : Int)
+  | graduate (ih : Bytes) (p : Peer) (now : Int)
+  | deleteSeeder (ih : Bytes) (p : Peer)
+  | deleteLeecher (ih : Bytes) (p : Peer)
+  deriving DecidableEq
+
+/-- one `INCR` / `DECR` round trip -/
+structure Delta where
+  f : Fam
+  k : CKind
+  d : Int
+  deriving DecidableEq
+
+def applyDelta (s : RState) (δ : Delta) : RState := addC s δ.f δ.k δ.d
+def applyDeltas (s : RState) (ds : List Delta) : RState := ds.foldl applyDelta s
+
+def dIf (b : Bool) (f : Fam) (k : CKind) (d : Int) : List Delta := if b then [⟨f, k, d⟩] else []
+
+/-- the first round trip of an operation: the new server state, the counter round trips its replies
+call for (in the order the code issues them), and the operation's result (`false` =
+`ErrResourceDoesNotExist`) -/
+def first (s : RState) : AOp → RState × List Delta × Bool
+  | .putSeeder ih p now =>
+    let x := core s p.fam (swarmKey p.fam true ih) (swarmKey p.fam false ih) (peerKey p) now
+    (x.1, dIf (x.2.2.2 == 1) p.fam .l (-1) ++ dIf (x.2.1 == 1) p.fam .s 1 ++ dIf (x.2.2.1 == 1) p.fam .ih 1, true)
+  | .putLeecher ih p now =>
+    let x := core s p.fam (swarmKey p.fam false ih) (swarmKey p.fam true ih) (peerKey p) now
+    (x.1, dIf (x.2.2.2 == 1) p.fam .s (-1) ++ dIf (x.2.1 == 1) p.fam .l 1, true)
+  | .graduate ih p now =>
+    let x := core2 s p.fam (swarmKey p.fam true ih) (swarmKey p.fam false ih) (peerKey p) now
+    (x.1, dIf (x.2.2.2 == 1) p.fam .l (-1) ++ dIf (x.2.1 == 1) p.fam .s 1 ++ dIf (x.2.2.1 == 1) p.fam .ih 1, true)
+  | .deleteSeeder ih p =>
+    let x := hdel s (swarmKey p.fam true ih) (peerKey p)
+    if x.2 == 0 then (s, [], false) else (x.1, [⟨p.fam, .s, -1⟩], true)
+  | .deleteLeecher ih p =>
+    let x := hdel s (swarmKey p.fam false ih) (peerKey p)
+    if x.2 == 0 then (s, [], false) else (x.1, [⟨p.fam, .l, -1⟩], true)
+
+/-- an operation run alone: its first round trip, then its counter round trips -/
+def seqOp (s : RState) (o : AOp) : RState := applyDeltas (first s o).1 (first s o).2.1
+
+structure Thread where
+  pending : List Delta := []     -- counter round trips of the operation in flight still to be issued
+  todo : List AOp := []          -- operations not yet started
+  deriving DecidableEq
+
+structure Config where
+  s : RState
+  thr : Nat → Thread
+  log : List (Nat × AOp × Bool) := []    -- (thread, operation, result) in the order of the first round trips
+
+def upd (f : Nat → Thread) (i : Nat) (a : Thread) : Nat → Thread := fun j => if j = i then a else f j
+
+def Init (s₀ : RState) (progs : Nat → List AOp) : Config := ⟨s₀, fun t => ⟨[], progs t⟩, []⟩
+
+/-- the next round trip of thread `t`, if it has one -/
+def stepThread (c : Config) (t : Nat) : Config :=
+  match c.thr t with
+  | ⟨δ :: ds, todo⟩ => ⟨applyDelta c.s δ, upd c.thr t ⟨ds, todo⟩, c.log⟩
+  | ⟨[], o :: rest⟩ => ⟨(first c.s o).1, upd c.thr t ⟨(first c.s o).2.1, rest⟩, c.log ++ [(t, o, (first c.s o).2.2)]⟩
+  | ⟨[], []⟩ => c
+
+/-- run a schedule: the list of thread numbers whose turn it is -/
+def run (c : Config) (sched : List Nat) : Config := sched.foldl stepThread c
+
+end RedisConc
